@@ -138,7 +138,12 @@ fn expect_file(o: &ObjectSpec, toi: u128, sender: &SenderSpec, publish_us: u64) 
         max_sbl: if with_oti { Some(oti.b as u64) } else { None },
         esl: if with_oti { Some(oti.e as u64) } else { None },
         max_n: if with_oti { Some(oti.b as u64 + oti.parity as u64) } else { None },
-        scheme_info: None,
+        scheme_info: if with_oti && matches!(oti.scheme, Scheme::RaptorQ | Scheme::Raptor) {
+            // Z is filled in when compared (it depends on the announced transfer length)
+            Some(format!("{}/{}/{}", if oti.scheme == Scheme::RaptorQ { "Q" } else { "R" }, oti.sub_blocks, oti.al))
+        } else {
+            None
+        },
         etag: o.etag.clone(),
         groups: o.groups.clone().unwrap_or_default(),
         cache: o.cache.as_ref().map(|c| match c {
@@ -190,6 +195,28 @@ fn compare_file(ctx: &Ctx, inst: u32, got: &FdtFile, want: &FdtFile) {
     }
     if got.cache != want.cache {
         bad("cache", format!("{:?}", got.cache), format!("{:?}", want.cache));
+    }
+    if let Some(ws) = &want.scheme_info {
+        // Scheme-Specific-Info (base64): RaptorQ = Z(8) N(16) Al(8), Raptor = Z(16) N(8) Al(8); Z = number of source blocks
+        use base64::Engine;
+        let parts: Vec<&str> = ws.split('/').collect();
+        let (n_want, al_want): (u64, u64) = (parts[1].parse().unwrap_or(0), parts[2].parse().unwrap_or(0));
+        let tl = got.transfer_length.unwrap_or(0);
+        let p = crate::wire::partition(want.max_sbl.unwrap_or(0), tl, want.esl.unwrap_or(0));
+        let z_want = p.3.max(1);
+        let dec = got.scheme_info.as_ref().and_then(|s| base64::engine::general_purpose::STANDARD.decode(s).ok());
+        let got_t = match (&dec, parts[0]) {
+            (Some(b), "Q") if b.len() == 4 => Some((b[0] as u64, ((b[1] as u64) << 8) | b[2] as u64, b[3] as u64)),
+            (Some(b), "R") if b.len() == 4 => Some((((b[0] as u64) << 8) | b[1] as u64, b[2] as u64, b[3] as u64)),
+            _ => None,
+        };
+        if got_t != Some((z_want, n_want, al_want)) {
+            bad(
+                "fec-scheme-specific-info",
+                format!("{:?} = (Z, N, Al) {:?}", got.scheme_info, got_t),
+                format!("(Z, N, Al) = {:?} ({} source blocks for the announced transfer length {})", (z_want, n_want, al_want), z_want, tl),
+            );
+        }
     }
     if want.fec_id.is_some() {
         if (got.fec_id, got.max_sbl, got.esl, got.max_n) != (want.fec_id, want.max_sbl, want.esl, want.max_n) {
